@@ -27,7 +27,7 @@ var (
 	thorough = flag.Bool("thorough", false, "thorough tier")
 	harness  = flag.String("harness", "/verif/harness", "path of the verifharness module")
 	plugins  = flag.String("plugins", "curry,uncurry,flip,apply,tuple", "comma separated plugin list")
-	cfg      = flag.String("cfg", "000000000", "model variant flags written into every op line: unnamedFixed shadowFixed crossFixed voidFixed zeroFixed lhsFixed errTypeFixed errRecvFixed typedNilFixed")
+	cfg      = flag.String("cfg", "0000000000", "model variant flags written into every op line: unnamedFixed shadowFixed crossFixed voidFixed zeroFixed lhsFixed errTypeFixed errRecvFixed typedNilFixed localsFixed")
 )
 
 func must(err error) {
@@ -75,6 +75,11 @@ func (g *gen) types(n int, okOnly bool) []int {
 }
 
 var letters = []string{"a", "b", "c", "d", "e"}
+
+// vocab: identifiers the generator's templates use themselves (parameters and locals of the emitted
+// functions), apart from f and err which have their own schemes.
+var vocab = []string{"last", "rest", "this", "that", "v", "out", "in", "list", "item", "elem", "res", "ok", "i", "m", "h",
+	"dst", "src", "buf", "g", "c", "r", "l", "ss", "wg", "wait", "success", "out0", "v0", "err0", "fn", "w", "e"}
 
 // naming returns the parameter names of scheme s for n parameters, or nil when the scheme does not
 // exist for that arity.
@@ -244,6 +249,37 @@ func (g *gen) genC15() {
 		}
 		g.add(c)
 	}
+	// parameter names from the generator's OWN vocabulary (the identifiers its templates use for parameters
+	// and locals) at every position, all parameters of one type: a capture would compile silently
+	for i := range vocab {
+		n := 3
+		names := []string{vocab[i], vocab[(i+1)%len(vocab)], vocab[(i+2)%len(vocab)]}
+		t := g.anyType()
+		ps := make([]funcs.Param, n)
+		for j := range ps {
+			ps[j] = funcs.Param{Name: names[j], T: t}
+		}
+		rs := g.types(1+i%2, false)
+		for _, kind := range []string{"curry", "flip", "apply", "uncurrycurry"} {
+			g.add(&funcs.Class{Prop: "C15", Kind: kind, Tag: "vocab", Ps: ps, Rs: rs})
+		}
+		if i%2 == 0 {
+			g.add(&funcs.Class{Prop: "C15", Kind: "uncurry", Tag: "vocab", Outer: ps[:1], Inner: ps[1:], Rs: rs})
+		}
+	}
+	// an interface parameter bound to a value of an IMPORTED named type that no signature mentions: the
+	// generated file must not import that package (one such call per package)
+	for i, e := range []struct {
+		t       int
+		expr    string
+		payload int
+	}{{17, "geo.Square{N: 6}", 6}, {11, "geo.Square{N: 4}", 4}, {17, "geo.Dur(7)", 7}, {11, "geo.Dur(5)", 5}} {
+		n := 1 + i%3
+		ps := g.params(naming("named", n))
+		ps[n-1].T = e.t
+		g.add(&funcs.Class{Prop: "C15", Kind: "apply", Tag: "argexpr:imported", Ps: ps, Rs: g.types(1+i%2, false),
+			LastExpr: e.expr, LastPayload: e.payload, Import: "corpus/geo"})
+	}
 	// tuple
 	for n := 1; n <= 5; n++ {
 		g.add(&funcs.Class{Prop: "C15", Kind: "tuple", Tag: "direct", Ts: g.types(n, false)})
@@ -388,7 +424,7 @@ func (g *gen) genC16() {
 		g.add(&funcs.Class{Prop: "C16", Kind: "joine", Tag: fmt.Sprintf("results:%d", 2+i%2), Outs: g.types(2+i%2, i < 2)})
 	}
 	// ---- join of fmap (monadic bind)
-	for i, t := range []int{0, 1, 2, 4, 6, 7, 8, 9, 11, 12} {
+	for i, t := range []int{0, 1, 2, 4, 6, 7, 8, 9, 11, 12, 18, 19} {
 		g.add(&funcs.Class{Prop: "C16", Kind: "bind", Tag: "results:1:" + funcs.Types[t].Kind, In: g.anyType(), Outs: []int{t}, Split: i%2 == 0})
 	}
 	for i := 0; i < 6; i++ {
@@ -443,6 +479,18 @@ func (g *gen) genC16() {
 	g.add(&funcs.Class{Prop: "C16", Kind: "bind", Tag: "percent", In: 16, Outs: []int{16}, Split: true})
 	g.add(&funcs.Class{Prop: "C16", Kind: "traverse", Tag: "percent", In: 16, Outs: []int{16}})
 	g.add(&funcs.Class{Prop: "C16", Kind: "toerror", Tag: "percent", Ps: []funcs.Param{{Name: "a", T: 16}}, Rs: []int{16}})
+	// ---- toerror with the generator's own vocabulary as parameter names (success and out<i> are its locals)
+	for i := range vocab {
+		if i%2 == 1 {
+			continue
+		}
+		t := g.anyType()
+		ps := []funcs.Param{{Name: vocab[i], T: t}, {Name: vocab[(i+1)%len(vocab)], T: t}}
+		g.add(&funcs.Class{Prop: "C16", Kind: "toerror", Tag: "vocab", Ps: ps, Rs: g.types(i/2%3, false)})
+	}
+	// ---- toerror given an error VALUE of an imported type
+	g.add(&funcs.Class{Prop: "C16", Kind: "toerror", Tag: "imported-error", Ps: g.params(naming("named", 2)), Rs: g.types(1, false),
+		ErrExpr: "geo.Err{Code: in[\"err\"][0]}", Import: "corpus/geo"})
 	// ---- toerror
 	for _, s := range []string{"named", "blankall", "blankmix", "unnamed", "f0", "err0", "prefixblank", "gennames"} {
 		for n := 1; n <= 3; n++ {
@@ -457,8 +505,8 @@ func (g *gen) genC16() {
 
 func main() {
 	flag.Parse()
-	if len(*cfg) != 9 || strings.Trim(*cfg, "01") != "" {
-		must(fmt.Errorf("-cfg wants nine binary digits"))
+	if len(*cfg) != 10 || strings.Trim(*cfg, "01") != "" {
+		must(fmt.Errorf("-cfg wants ten binary digits"))
 	}
 	g := &gen{rng: rand.New(rand.NewSource(*seed)), stats: map[string]int{}}
 	want := map[string]bool{}
@@ -475,6 +523,7 @@ func main() {
 
 	write(filepath.Join(*out, "go.mod"), fmt.Sprintf("module corpus\n\ngo 1.24\n\nrequire verifharness v0.0.0\n\nreplace verifharness => %s\n", *harness))
 	write(filepath.Join(*out, "prelude.txt"), funcs.Prelude())
+	write(filepath.Join(*out, "geo", "geo.go"), funcs.Geo)
 	var ops strings.Builder
 	var pkgs []string
 	id := 0
